@@ -255,6 +255,26 @@ Definition candidates_by_name {C M D} (o : ops C M D) (g : graph C M) (name : st
   | Ok (_, v) => candidates o g v
   end.
 
+(* ---------- the neighbouring accessors ---------- *)
+(* `get_all`: `iter.map(|s| self.get(s)).collect::<Result<Vec<_>>>()` — the answers in order, or the
+   (first) error *)
+Fixpoint get_all {C M} (g : graph C M) (names : list str) : res (list (vsplit * nat)) :=
+  match names with
+  | [] => Ok []
+  | k :: rest =>
+      match get g k with
+      | Err => Err
+      | Ok x => match get_all g rest with Ok l => Ok (x :: l) | Err => Err end
+      end
+  end.
+
+(* `get_diff(parent, version)`: `find_edge`, then read that edge's file; no edge = Ok(None) *)
+Definition get_diff {C M D} (o : ops C M D) (g : graph C M) (a b : nat) : res (option D) :=
+  match find_edge (g_edges g) a b with
+  | None => Ok None
+  | Some e => match parse_diff o (snd (e_file e)) with Ok d => Ok (Some d) | Err => Err end
+  end.
+
 (* ---------- name-level reading of a directory (specification side) ---------- *)
 Definition keys (v : str) : list str :=
   match split_once sep_split v with Some (a, b) => [a; b] | None => [v] end.
